@@ -15,6 +15,16 @@ def all_jobs():
         m = importlib.util.module_from_spec(spec)
         spec.loader.exec_module(m)
         out.extend(m.JOBS)
+    # C17 / C15 ride on the frame and functional obligations of the pure codecs' contracts: every quick job that enforces
+    # a contract (assigns clause + postconditions, statics nondeterministic) of a function documented as pure also serves
+    # them; the static-storage scan is the supporting fact
+    PURE = ("tagged/", "external/", "externalbe/", "chained/", "chainedsimple/", "split/", "splitfull/", "splitfullnozero/",
+            "splitfull16/", "packed/", "bitstream/", "delta/", "callee/", "elias/", "rle/DecodeRun", "rle/GetCount", "add/")
+    for j in out:
+        if j.enforce and j.tier == "quick" and j.mode in ("M1", "M2") and j.name.startswith(PURE):
+            for p in ("C17", "C15"):
+                if p not in j.props:
+                    j.props.append(p)
     names = [j.name for j in out]
     assert len(names) == len(set(names)), "duplicate job names"
     _cache = out
